@@ -175,6 +175,10 @@ def scenarios(ctx):
     out.append(Std('pub-reenter-errback', profile='pub', init=CONNECTED_P, connects=[(False, 0, 4)], reenter=('err:pub>pub',),
                    reconnects=[(True, 0, 4), (False, 0, 4)], pub_qos=(1, 2), windows=(1, 2),
                    budgets=dict(pub=2, ack=1, lose=1, rebuild=1, connect=1, connack=1, setwin=1, tick=0 if q else 1)))
+    # the application publishes from the callback of connect() while the resumed session is being brought back
+    out.append(Std('pub-reenter-connected', profile='pub', init=CONNECTED_P, connects=[(False, 0, 4)],
+                   reenter=('ok:connect@1>pub1', 'ok:connect@1>pub2'), reconnects=[(False, 0, 4), (True, 0, 4)], pub_qos=(1, 2), windows=(1, 2),
+                   budgets=dict(pub=2, ack=1, lose=1, rebuild=1, connect=1, connack=1, setwin=1, tick=0 if q else 1)))
     out.append(Std('pubsub-async', profile='pubsub', mode='async', init=CONNECTED_P, connects=[(False, 0, 4)],
                    reconnects=[(False, 0, 4), (True, 0, 4)], pub_qos=(1, 2),
                    budgets=dict(pub=2, ack=2, tick=1, lose=1, disconnect=1, rebuild=2, connect=2, connack=2)))
